@@ -89,8 +89,8 @@ def group_of(lines, idx):
 def reproduce(drv, cfg, group_lines, extra_data=None, module="SnapTrace"):
     """Re-run a group of recorded calls through the current code and validate the fresh records.
     Returns (violated_invariant or None, fresh_lines)."""
-    cmd = "real-replay" if module == "RealTrace" else "snap-replay"
-    p = vlib.run([drv, cmd], input="\n".join(group_lines) + "\n", timeout=600)
+    cmd = ["real-replay"] if module == "RealTrace" else (["snap-replay", "-steps"] if module == "SnapSteps" else ["snap-replay"])
+    p = vlib.run([drv] + cmd, input="\n".join(group_lines) + "\n", timeout=600)
     if p.returncode != 0:
         raise Broken("%s failed: %s" % (cmd, p.stderr[-2000:]))
     fresh = [x for x in p.stdout.splitlines() if x.startswith("{")]
@@ -251,7 +251,7 @@ def run_design(keys, tier):
 
 def run_snap_property(prop, tier, cfg, plans, rule, classify=None, second_process=False, min_valid_frac=0.0,
                       extra_cov=None, assumptions=None, extra_lines=None, post=None, real_plans=None, real_cfg=None, require_repro=True,
-                      design=("snap",)):
+                      design=("snap",), steps_plans=None, steps_cfg=None):
     t0 = time.time()
     v = vlib.Verdict(prop)
     design_done = run_design(design, tier)
@@ -277,6 +277,15 @@ def run_snap_property(prop, tier, cfg, plans, rule, classify=None, second_proces
         finally:
             vlib.rm(d)
         rres = validate(prop, real_cfg, rlines, v, drv, classify=classify, module="RealTrace", require_repro=require_repro)
+    sres = None
+    slines = []
+    if steps_plans:
+        d = vlib.scratch(prop.lower() + "steps")
+        try:
+            slines = generate(drv, d, [dict(pl, extra=pl.get("extra", []) + ["-steps"]) for pl in steps_plans])
+        finally:
+            vlib.rm(d)
+        sres = validate(prop, steps_cfg, slines, v, drv, classify=classify, module="SnapSteps", require_repro=require_repro)
     st = summarize(res["stats"])
     if st["records"] and st["valid"] < min_valid_frac * st["records"]:
         raise Broken("generator degenerate: only %d of %d records are valid polygons" % (st["valid"], st["records"]))
@@ -302,6 +311,12 @@ def run_snap_property(prop, tier, cfg, plans, rule, classify=None, second_proces
         cov["real_grid_sets"] = sets
         if rlines:
             cov["samples"].append(json.loads(rlines[0]))
+    if sres is not None:
+        cov["intermediate_step_records"] = len(slines)
+        cov["intermediate_step_events"] = sum(len(json.loads(x)["steps"]) for x in slines[:2000]) * max(1, len(slines) // max(1, min(len(slines), 2000)))
+        cov["states"] += sres["states"]
+        cov["transitions"] += sres["transitions"]
+        cov["traces_validated_against_impl"] += len(slines)
     cov["design_models"] = design_done
     cov["states"] += sum(d["states"] for d in design_done)
     cov["transitions"] += sum(d["transitions"] for d in design_done)
@@ -321,7 +336,7 @@ def replay_snap(path):
     o = json.load(open(path))
     drv = vlib.build_harness()
     grp = [json.dumps(r) for r in o["records"]]
-    module = "RealTrace" if o["cfg"].startswith("RealTrace") else "SnapTrace"
+    module = "RealTrace" if o["cfg"].startswith("RealTrace") else ("SnapSteps" if o["cfg"].startswith("SnapSteps") else "SnapTrace")
     inv, fresh = reproduce(drv, o["cfg"], grp, module=module)
     for x in fresh:
         print(x[:2000])
